@@ -300,6 +300,9 @@ pub(crate) fn family(name: &str) -> Vec<TxT> {
             tx("br1-plain-transfer", &BR1, vec![transfer(&DAVE, 1, nria().into(), nria().into())]),
             tx("br1-withdrawer-to-eve", &SUDO, vec![bridge_sudo_change(&BR1, None, Some(&EVE), false)]),
             tx("br1-disable-deposits", &SUDO, vec![bridge_sudo_change(&BR1, None, None, true)]),
+            // a bridge administration action that changes no address, by accounts without authority
+            tx("br1-disable-deposits-by-alice", &ALICE, vec![bridge_sudo_change(&BR1, None, None, true)]),
+            tx("br1-disable-deposits-by-withdrawer", &W, vec![bridge_sudo_change(&BR1, None, None, true)]),
             tx("unlock-br1-10-e5-by-eve", &EVE, vec![unlock(&BR1, &EVE, 10, "e5")]),
             tx("br1-sudo-change-by-w", &W, vec![bridge_sudo_change(&BR1, Some(&W), Some(&W), false)]),
             // aliasing: unlock to the withdrawer itself, bridge transfer to the same bridge, lock by the withdrawer
